@@ -1,5 +1,7 @@
 import OFCore.RuleSys
 import OFCore.GeneratedGuards
+import OFCore.GeneratedEngine
+import OFCore.Props.C01
 /-!
 # C01 — the engine model serves a read exactly when the code's source says so (translator tie)
 
@@ -46,6 +48,76 @@ theorem C01_tie_add_read_refused (d : Decl) (w : Nat) (wv : Var) (q : Period)
   · by_cases h1 : unitWeight wv.unit > unitWeight q.unit <;> simp [Tie.consistencyGuards, Tie.holderSetGuards, Tie.addGuards, Tie.divideGuards, Tie.dated, Tie.enclosingName, Tie.denominatorName, h1, h]
   · by_cases h1 : unitWeight wv.unit > unitWeight q.unit <;>
       by_cases h2 : wv.unit = .eternity <;> simp [Tie.consistencyGuards, Tie.holderSetGuards, Tie.addGuards, Tie.divideGuards, Tie.dated, Tie.enclosingName, Tie.denominatorName, h1, h2, h]
+
+/-! ## `Variable.get_formula`: the fold of the model is the scan of the code
+
+`Variable.formulas` is a `SortedDict` keyed by start date: iterating it yields the keys in strictly ascending
+order, each once.  `Engine.variable_get_formula` is the translation of the current source of `get_formula`
+over that ascending content; `RuleSys.formulaInForce` is the model's fold over the declarations in any order. -/
+
+/-- appending a formula that starts after all the others: it wins when admissible, else nothing changes -/
+theorem pick_snoc (o : Int) (l : List (Int × DExpr)) (a : Int × DExpr) (hs : ∀ f ∈ l, f.1 < a.1) :
+    (l ++ [a]).foldl (pickStep o) none = if a.1 ≤ o then some a else l.foldl (pickStep o) none := by
+  rw [List.foldl_append]
+  simp only [List.foldl_cons, List.foldl_nil]
+  have hm : ∀ b, l.foldl (pickStep o) none = some b → b ∈ l := by
+    intro b hb
+    have := (pick_fold_spec o l none [] (by intro b hb; cases hb) (by intro _ f hf; cases hf)).1 b hb
+    simpa using this.1
+  generalize l.foldl (pickStep o) none = r at hm
+  unfold pickStep
+  by_cases h1 : a.1 ≤ o
+  · simp only [h1, if_true]
+    cases r with
+    | none => rfl
+    | some b =>
+      have := hs b (hm b rfl)
+      simp only [show b.1 ≤ a.1 by omega, if_true]
+  · simp only [h1, if_false]
+
+/-- on strictly ascending content, the model's fold is the first match of the descending scan -/
+theorem pick_eq_scan (o : Int) : ∀ (r : List (Int × DExpr)), (r.reverse).Pairwise (fun a b => a.1 < b.1) →
+    r.reverse.foldl (pickStep o) none = r.find? (fun f => decide (f.1 ≤ o)) := by
+  intro r
+  induction r with
+  | nil => intro _; rfl
+  | cons a r ih =>
+    intro hp
+    rw [List.reverse_cons] at hp ⊢
+    rw [List.pairwise_append] at hp
+    obtain ⟨hp1, _, hp3⟩ := hp
+    rw [pick_snoc o r.reverse a (fun f hf => hp3 f hf a (by simp)), ih hp1, List.find?_cons]
+    by_cases h : a.1 ≤ o <;> simp [h]
+
+/-- **tie**: for every variable whose formulas are listed as the `SortedDict` holds them (strictly ascending
+    start dates), every `end` date and every instant, the model's formula in force is what the current source
+    of `Variable.get_formula` returns -/
+theorem C01_tie_get_formula (v : Var) (o : Int) (hs : v.formulas.Pairwise (fun a b => a.1 < b.1)) :
+    formulaInForce v o = Engine.variable_get_formula v.formulas v.endOrd o := by
+  have hk : pickFormula v o = (v.formulas.reverse.find? (fun f => decide (f.1 ≤ o))).map (·.2) := by
+    unfold pickFormula
+    have := pick_eq_scan o v.formulas.reverse (by simpa using hs)
+    rw [List.reverse_reverse] at this
+    rw [this]
+  unfold formulaInForce Engine.variable_get_formula
+  by_cases he : v.formulas.isEmpty
+  · have : v.formulas = [] := by simpa using he
+    simp [this, pickFormula]
+    cases v.endOrd <;> rfl
+  · rw [hk]
+    simp only [he, Bool.false_eq_true, if_false]
+    cases v.endOrd with
+    | none => simp; cases v.formulas.reverse.find? (fun f => decide (f.1 ≤ o)) <;> rfl
+    | some e =>
+      by_cases h : o > e
+      · simp [h]
+      · simp [h]; cases v.formulas.reverse.find? (fun f => decide (f.1 ≤ o)) <;> rfl
+
+/-- the hypothesis is met, and the scan answers, on a concrete variable with two formulas and an end date -/
+example : let fs : List (Int × Nat) := [(10, 1), (20, 2)]
+    fs.Pairwise (fun a b => a.1 < b.1) ∧ Engine.variable_get_formula fs (some 30) 25 = some 2 ∧
+    Engine.variable_get_formula fs (some 30) 15 = some 1 ∧ Engine.variable_get_formula fs (some 30) 5 = none ∧
+    Engine.variable_get_formula fs (some 30) 31 = none := by decide
 
 example : Guards.checkPeriodConsistency_raises .month .year 1 = true := by decide
 example : Guards.checkPeriodConsistency_raises .eternity .year 3 = false := by decide
